@@ -260,8 +260,12 @@ def make_clock_multiplier(output_clock_rate: int, input_clock_rate: int) -> Gene
     multiple = 1.0
     if output_clock_rate and input_clock_rate:
         multiple = output_clock_rate / input_clock_rate
-    if (multiple > 1 and int(multiple) != multiple) or (multiple < 1 and 1 / multiple != int(1 / multiple)):
-        raise ClockException("Cannot sync output device (clock rates must integer multiples of each other)")
+        #------------------------------------------------------------------------
+        # Test divisibility on the rates themselves: the float quotient is not
+        # exact (1 / (1 / 49) != 49), which refused valid pairs such as 24:1176.
+        #------------------------------------------------------------------------
+        if output_clock_rate % input_clock_rate != 0 and input_clock_rate % output_clock_rate != 0:
+            raise ClockException("Cannot sync output device (clock rates must integer multiples of each other)")
 
     pos = 1
     while True:
